@@ -360,10 +360,14 @@ fn with_traffic_in_the_other_direction(rep: &mut Rep) {
         inbound: vec![(2, 1, false, SubSel::Absent), (2, 2, false, SubSel::Op(0)), (2, 1, true, SubSel::Absent), (1, 1, false, SubSel::Absent), (1, 2, false, SubSel::Op(0)), (0, 0, false, SubSel::Op(0))],
         pubrels: vec![1, 2, 3],
         max_inbound: 60,
+        // the application may also give up on a request - before the context has looked at it (the context is held while
+        // requests queue), while it waits for its acknowledgement, between the phases of a QoS 2 exchange
+        drops: true,
+        race: true,
         ..Default::default()
     };
     let walks = if rep.quick() { 300 } else { 8000 };
-    rep.note(&format!("traffic in the other direction: {walks} PRNG walks of 90 actions under Receive Maximum 1 / 2 / 3 mixing the client's own QoS 0/1/2 publishes, subscribes, unsubscribes and pings with inbound QoS 0/1/2 messages, re-deliveries and PUBREL packets whose identifiers overlap the client's own (1, 2, 3): accepted / refused exactly by the client's own outstanding publishes, H3 conservation at every step, probe at the end"));
+    rep.note(&format!("traffic in the other direction: {walks} PRNG walks of 90 actions under Receive Maximum 1 / 2 / 3 mixing the client's own QoS 0/1/2 publishes, subscribes, unsubscribes and pings with inbound QoS 0/1/2 messages, re-deliveries and PUBREL packets whose identifiers overlap the client's own (1, 2, 3), and with requests given up while queued / waiting: accepted / refused exactly by the client's own outstanding publishes, H3 conservation at every step, probe at the end"));
     for k in 0..walks {
         let id = format!("inbound-walk:{k}");
         if !rep.take(8_500_000 + k, &id) {
